@@ -87,8 +87,10 @@ def run(frequency, amplitude, peaks_f, valid_window, valid_peak, n, max_iteratio
         mu_a, sd_a, mc_a = after
         d_a = abs(mu_a - mc_a)
         # zero tests (exact zeros end the run; tiny non-zero values are numerically ambiguous)
+        # (the code under test sums in another order: an exact zero here may be 1e-16 there and vice versa, so a
+        # vanishing quantity is ambiguous whether or not it is exactly zero in this model)
         for v, s in ((d_b, max(abs(mu_b), 1e-300)), (sd_b, max(abs(mu_b), 1.0)), (sd_a, max(abs(mu_a), 1.0))):
-            if v != 0 and v / s < 1e-12:
+            if v / s < 1e-12:
                 undecidable("quantity indistinguishable from zero")
         if d_b == 0 or sd_b == 0 or sd_a == 0:
             out.iterations = it
